@@ -2805,7 +2805,10 @@ def r_listensample(ctx) -> RuleResult:
             return None          # the sample could not even be stored
         falls, lefts = pe.block(ast.parse("g = L.to_graph()").body, falls)
         hows = {how for _s, how, _v in lefts} | ({"return"} if falls else set())
+        run.classes = {v_ for _s, how, v_ in lefts if how == "raise"}
         return hows, list(pe.gaps)
+    from .parserwiring import _parser_exception
+    exc_name = _parser_exception(ctx).name
     n = 0
     for text, atoms, bonds, attrs in dangling:
         r_ = run(atoms, bonds, attrs)
@@ -2813,6 +2816,13 @@ def r_listensample(ctx) -> RuleResult:
             continue
         hows, gaps = r_
         n += 1
+        other = sorted(c_ for c_ in run.classes if isinstance(c_, str) and c_ != exc_name)
+        if hows == {"raise"} and not gaps and other and None not in run.classes and exc_name not in run.classes:
+            res.inst(tg.fq, f"sample {text!r} (an index names no atom)", "fail", detail=f"paths end in {other}")
+            res.fail(Finding("R-LISTENSAMPLE", tg.module.rel, tg.qualname, f"sample {text}",
+                             f"for what the string {text!r} stores in the listener (an index that names no atom of the formula) to_graph ends in {other[0]} on every path: the string is rejected "
+                             f"with an unrelated error instead of {exc_name}", line=tg.node.lineno))
+            continue
         bad = hows == {"return"} and not gaps
         res.inst(tg.fq, f"sample {text!r} (an index names no atom)", "fail" if bad else "ok", detail=f"paths end in {sorted(hows)}" + (f"; not followed: {gaps[0]}" if gaps else ""))
         if bad:
